@@ -9,6 +9,7 @@ namespace C14
 open Tab Spec.Cells C14L
 
 variable {κ ζ ν : Type} [DecidableEq κ] [DecidableEq ζ]
+set_option linter.unusedSectionVars false
 
 /-- **cells_are_groupBy** (all streams, induction over `Add`): the cell (t, r, c) holds exactly
 the values of the measurements that fall under (t, r, c), in input order; it exists iff that
@@ -28,11 +29,11 @@ theorem cells_are_groupBy (rs : List (Res κ ζ ν)) :
     have := hasCell_foldl rs ([] : Builder κ ζ ν) t r c
     simp only [build] at this ⊢
     rw [this]
-    simp only [hasCell, AL.lookup, Bool.false_or, List.any_eq_true, group, ne_eq, List.filter_eq_nil_iff,
-      not_forall]
+    simp only [hasCell, AL.lookup, Bool.false_or, List.any_eq_true, group, ne_eq, List.filter_eq_nil_iff]
     constructor
-    · rintro ⟨m, hm, h⟩; exact ⟨m, hm, by simp [h]⟩
-    · rintro ⟨m, hm, h⟩; exact ⟨m, hm, by simpa using h⟩
+    · rintro ⟨m, hm, h⟩ hall; exact hall m hm h
+    · intro h
+      exact Classical.byContradiction fun hne => h fun a ha hin => hne ⟨a, ha, hin⟩
   · have := totalValues_foldl rs ([] : Builder κ ζ ν)
     simpa [build, totalValues] using this
 
@@ -109,18 +110,18 @@ theorem comparison_against_same_row_baseline (k : κ × κ) (cell : OCell κ)
     simp only [hb, Option.map_some, Option.some.injEq] at h
     subst h
     refine ⟨rfl, by simp [mkCell], rfl, ?_⟩
-    simp only [mkCell]
-    cases hbase : (match (sortKeys cfg.rankC bt.cols).head? with
-      | none => (none : Option (κ × κ))
-      | some bcol => if k.2 ≠ bcol then
-          match AL.lookup (k.1, bcol) bt.cells with
-          | some _ => some (k.1, bcol)
-          | none => none
-        else none) with
-    | none => simp
-    | some bk =>
-      simp only [Option.bind_some, toTable_cell]
-      cases AL.lookup bk bt.cells <;> simp [mkCell]
+    have key : ∀ (S : List F64.Bits) (o : Option (κ × κ)),
+        (o.bind fun bk => (AL.lookup bk bt.cells).map fun bc =>
+          cfg.orc.compare (cfg.assume (cfg.unitOf t)) (sortFloats bc.values) S) =
+        o.bind fun bk => (AL.lookup bk (toTable cfg t bt).cells).map fun bc =>
+          cfg.orc.compare (cfg.assume (cfg.unitOf t)) bc.sample S := by
+      intro S o
+      cases o with
+      | none => rfl
+      | some bk =>
+        simp only [Option.bind_some, toTable_cell]
+        cases AL.lookup bk bt.cells <;> rfl
+    exact key _ _
 
 /-- a cell's sample is a permutation of the values the builder collected for it -/
 theorem sample_perm (k : κ × κ) (cell : OCell κ) (bc : BCell (List Bytes) F64.Bits)
@@ -148,7 +149,13 @@ example : ratioOf F64.posZero F64.posZero = some F64.one ∧ ratioOf F64.negZero
     ratioOf 0x4018000000000000 0x4008000000000000 = some 0x4000000000000000 := by decide +kernel
 
 theorem strs_distinct : strDiffers ≠ strSumPos ∧ strDiffers ≠ strRatioPos ∧ strSumPos ≠ strRatioPos := by
-  decide
+  decide +kernel
+
+theorem mem_three {a b c : Bytes} (d1 : a ≠ b) (d2 : a ≠ c) (d3 : b ≠ c) (p q r : Bool) :
+    (a ∈ (if p then [a] else []) ++ (if q then [b] else []) ++ (if r then [c] else []) ↔ p = true) ∧
+    (b ∈ (if p then [a] else []) ++ (if q then [b] else []) ++ (if r then [c] else []) ↔ q = true) ∧
+    (c ∈ (if p then [a] else []) ++ (if q then [b] else []) ++ (if r then [c] else []) ↔ r = true) := by
+  cases p <;> cases q <;> cases r <;> simp [d1, d2, d3, d1.symm, d2.symm, d3.symm]
 
 /-- **geomean_row_spec**: the summary cell of a column is the geometric mean of the centres of
 the column's cells (in row order) and the geometric mean of the per-row ratios centre/baseline
@@ -182,75 +189,28 @@ theorem geomean_row_spec (orc : Oracles) (rows : List κ) (cells : List ((κ × 
   unfold summarizeCol at hs
   simp only [h1, h2, h3] at hs
   have hlen : ratios.length = pairs.length := by simp [ratios]
+  obtain ⟨m1, m2, m3⟩ := mem_three d1 d2 d3
+    (!isBase && (nBase != ratios.length || centres.length != ratios.length))
+    (F64.isNaN (geoMean orc centres).val)
+    ((!isBase && !bad) && F64.isNaN (geoMean orc ratios).val)
+  have hw : s.warnings =
+      (if (!isBase && (nBase != ratios.length || centres.length != ratios.length)) then [strDiffers] else []) ++
+      (if F64.isNaN (geoMean orc centres).val then [strSumPos] else []) ++
+      (if ((!isBase && !bad) && F64.isNaN (geoMean orc ratios).val) then [strRatioPos] else []) := by
+    rw [hs]
   refine ⟨?_, ?_, ?_, ?_, ?_, ?_, ?_⟩
   · rw [hs]
   · intro h; rw [hs] at h ⊢; simp only [Bool.not_eq_eq_eq_not, Bool.not_true] at h; simp [h, centres]
-  · rw [hs]; simp [bad, ratios, pairs, Bool.and_assoc]
+  · rw [hs]
   · intro h; rw [hs] at h ⊢
     simp only at h
     simp only [h, if_true]
     exact ⟨rfl, rfl⟩
-  · rw [hs]
-    simp only [List.mem_append]
-    constructor
-    · rintro ((h | h) | h)
-      · split at h
-        · rename_i hc
-          simp only [Bool.and_eq_true, Bool.not_eq_eq_eq_not, Bool.not_true, Bool.or_eq_true, bne_iff_ne, ne_eq,
-            List.length_map] at hc
-          exact ⟨hc.1, hc.2⟩
-        · simp at h
-      · split at h
-        · simp at h; exact absurd h d1
-        · simp at h
-      · split at h
-        · simp at h; exact absurd h d2
-        · simp at h
-    · rintro ⟨hb, hc⟩
-      left; left
-      have : (!isBase && (nBase != (List.map (fun p => (ratioOf p.1 p.2).getD F64.posZero) (colPairs rows cells col)).length ||
-          (colCentres rows cells col).length != (List.map (fun p => (ratioOf p.1 p.2).getD F64.posZero) (colPairs rows cells col)).length)) = true := by
-        simp only [Bool.and_eq_true, Bool.not_eq_eq_eq_not, Bool.not_true, Bool.or_eq_true, bne_iff_ne, ne_eq,
-          List.length_map]
-        exact ⟨hb, hc⟩
-      simp [this]
-  · rw [hs]
-    simp only [List.mem_append]
-    constructor
-    · rintro ((h | h) | h)
-      · split at h
-        · simp at h; exact absurd h.symm d1
-        · simp at h
-      · split at h
-        · rename_i hc; exact hc
-        · simp at h
-      · split at h
-        · simp at h; exact absurd h d3
-        · simp at h
-    · intro hc
-      left; right
-      simp [centres] at hc
-      simp [hc]
-  · rw [hs]
-    simp only [List.mem_append]
-    constructor
-    · rintro ((h | h) | h)
-      · split at h
-        · simp at h; exact absurd h.symm d2
-        · simp at h
-      · split at h
-        · simp at h; exact absurd h.symm d3
-        · simp at h
-      · split at h
-        · rename_i hc
-          simp only [Bool.and_eq_true, Bool.not_eq_eq_eq_not, Bool.not_true] at hc
-          exact ⟨hc.1.1, hc.1.2, hc.2⟩
-        · simp at h
-    · rintro ⟨hb, hbad, hn⟩
-      right
-      simp only [bad, pairs] at hbad
-      simp only [ratios, pairs] at hn
-      simp [hb, hbad, hn]
+  · rw [hw, m1, hlen]
+    simp only [Bool.and_eq_true, Bool.not_eq_eq_eq_not, Bool.not_true, Bool.or_eq_true, bne_iff_ne, ne_eq]
+  · rw [hw, m2]
+  · rw [hw, m3]
+    simp only [Bool.and_eq_true, Bool.not_eq_eq_eq_not, Bool.not_true, and_assoc]
 
 /-- the geomean itself: NaN exactly for an empty list or one with an element `<= 0`; otherwise
 the answer of go-moremath's `GeoMean` on that list -/
